@@ -60,6 +60,9 @@ def run(kind: str, plan: Plan, inject=None, status_cb="ok", t_end: float = T_END
     fed: list[tuple[float, int]] = []          # (time, connection) of every complete valid packet fed on a healthy link
 
     def feed_valid(s, conn, pkt):
+        if state.get("split_until", 0.0) > s.loop.time():      # a frame is being fed in two halves: wait for its end
+            s.at_time(state["split_until"] + 0.05, lambda: feed_valid(s, conn, pkt))
+            return
         r = s.readers.get(conn)
         if r is None or r.at_eof() or r.exception() is not None or s.writers[conn].closed:
             return
